@@ -45,7 +45,10 @@ def make_plan(rng):
             payload = [rng.randrange(1000), c, k]
             tasks.append([k, payload, fault])
         calls.append({"tasks": tasks, "scale": rng.choice((1, 2, 3))})
-    return {"np": np_, "calls": calls, "eq_tag": rng.randrange(1, 9)}
+    # pipe capacity under the queues: 64 KiB as on Linux, or small enough for the
+    # back-pressure paths to run with these tiny payloads (a result is ~60-110 bytes)
+    cap = rng.choice((65536, 65536, 4096, 512, 256, 128))
+    return {"np": np_, "calls": calls, "eq_tag": rng.randrange(1, 9), "pipe_capacity": cap}
 
 
 def call_budget(n, np_):
@@ -61,6 +64,7 @@ def run(plan, choices, keep_log=False):
     np_ = plan["np"]
     total_budget = sum(call_budget(len(c["tasks"]), np_) for c in plan["calls"]) + 200
     sim = ProcSim(choices, step_cap=total_budget, keep_log=keep_log)
+    sim.pipe_capacity = int(plan.get("pipe_capacity", 65536))
     eq = syn_tasks.FakeEquilibrium(plan["eq_tag"])
     verdicts = []
     violation = None
@@ -213,6 +217,10 @@ def candidates(cur):
     if plan["np"] > 2:
         p = _copy(plan)
         p["np"] = plan["np"] - 1
+        yield (p, choices)
+    if plan.get("pipe_capacity", 65536) != 65536:
+        p = _copy(plan)
+        p["pipe_capacity"] = 65536
         yield (p, choices)
     for call in plan["calls"]:
         if call["scale"] != 1:
